@@ -48,6 +48,10 @@ def TestOneInput(data):
             continue
         fault = [["del", [fdp.ConsumeIntInRange(0, 4000)]], ["dup", [fdp.ConsumeIntInRange(0, 4000)]], ["tok_bad", fdp.ConsumeIntInRange(0, 4000), fdp.ConsumeIntInRange(0, 9)],
                  ["tok_del", fdp.ConsumeIntInRange(0, 4000), 0], ["tok_ins", fdp.ConsumeIntInRange(0, 4000), 0]][k - 1]
+        if any(f[0] != "cut" and f[0] != fault[0] for f in faults):
+            # faults of different kinds can cancel into a SUBSTITUTION (delete one record line + duplicate another keeps every
+            # count and yields a well-formed file with other content): no count-based reader can notice - outside the fault model
+            continue
         d2 = c10.apply_fault(fmt, damaged, fault)
         if d2 is None:
             continue
